@@ -280,16 +280,25 @@ func TestC15(t *testing.T) {
 				c.Ops = append(c.Ops, op)
 			}
 		default:
-			addr := rapid.OneOf(rapid.SampledFrom([]int{0, 1, 0xFFFE, 0xFFFF, 0x8000, 0x7FFF}), rapid.IntRange(0, 65535))
+			// few addresses and few byte values (incl. the default 0xC7), so that the same cell is reached through
+			// Set on one value and through Put on another, and equal contents come about in different ways
+			addr := rapid.OneOf(rapid.SampledFrom([]int{0, 1, 2, 0xFFFE, 0xFFFF, 0x8000, 0x7FFF, 0x0100}), rapid.IntRange(0, 65535))
+			val := rapid.SampledFrom([]int{0x00, 0xC7, 0xC7, 0x01, 0xFF})
 			for i := 0; i < nops; i++ {
-				op := c15Op{Op: rapid.SampledFrom([]string{"Set", "Set", "Put", "Clone", "Clear", "Equal", "Equal"}).Draw(t, "op")}
+				op := c15Op{Op: rapid.SampledFrom([]string{"Set", "Set", "Put", "Put", "Clone", "Clear", "Equal", "Equal", "Equal"}).Draw(t, "op")}
 				op.V, op.W = rapid.IntRange(0, 3).Draw(t, "v"), rapid.IntRange(0, 3).Draw(t, "w")
 				op.Addr = addr.Draw(t, "addr")
 				switch op.Op {
 				case "Set":
-					op.Data = []int{int(rapid.SampledFrom([]uint8{0x00, 0xC7, 0x01, 0xFF}).Draw(t, "val"))}
+					op.Data = []int{val.Draw(t, "val")}
 				case "Put":
-					op.Data = byteData(rapid.IntRange(0, 6).Draw(t, "putLen"))
+					n := rapid.IntRange(0, 3).Draw(t, "putLen")
+					for j := 0; j < n; j++ {
+						op.Data = append(op.Data, val.Draw(t, "val"))
+					}
+					if rapid.IntRange(0, 7).Draw(t, "longPut") == 0 {
+						op.Data = append(op.Data, byteData(rapid.IntRange(1, 6).Draw(t, "more"))...)
+					}
 				}
 				c.Ops = append(c.Ops, op)
 			}
